@@ -321,7 +321,7 @@ LEVEL_TEXT_ADDENDA = {
            "(R-NO-MODULE-STATE). The sorting network of the concurrent buffer, a position-dependent helper, is a complete sort (R-SORT-NET). Nothing in the encoding phase is ordered by name (R-NAME-ORDER: sorted / min / max / .sort over registry keys or items, .name, key functions reading .name). No time of a possibly unscheduled task is read without the scheduled guard - it is -task_number, the declaration rank (R-SCHED-GUARD; its recorded findings are findings of this property too). Every constant name carries a literal tag of its kind.",
     "C15": " Also: R-OBJ-HANDED (see C07). R-BOUND-PROVENANCE (see C07). R-WEIGHTED decides the whole assertion stream of build_equivalent_weighted_objective (an extra assertion there exists only in the configurations that build the weighted objective). A bound an indicator gives itself is one of those that follow from a definition (table: utilisation (0, 100)). R-BOUND-ASSERTED (see C07).",
     "C16": " Also: only `indent` and the exclusion of `problem` may be passed to the JSON dump; the exported SMT-LIB stack is the "
-           "problem only if nothing is left on it (R-PUSH-POP, R-SCOPED-ASSERT). add_from_json hands the whole document unchanged to the validator of the class its type entry names (R-JSON-READ). No custom serializer, computed field, dump override or excluded field in the MRO of the task and cost function classes (R-JSON-FIELDS); every free name read in excel_io / solution / base / problem is bound (R-NAMES-RESOLVE). Distinct constants have distinct, kind-tagged names (R-NAME-INJECTIVE: the SMT-LIB text parses only then); R-REPORT-READONLY for the Excel exporter. The tracked (debug) configuration of the export is decided apart (R-SMT-TRACKED: one recorded finding - the labels of assert_and_track are left free in the exported text).",
+           "problem only if nothing is left on it (R-PUSH-POP, R-SCOPED-ASSERT). add_from_json hands the whole document unchanged to the validator of the class its type entry names (R-JSON-READ). No custom serializer, computed field, dump override or excluded field in the MRO of the task and cost function classes (R-JSON-FIELDS); every free name read in excel_io / solution / base / problem is bound (R-NAMES-RESOLVE). Distinct constants have distinct, kind-tagged names (R-NAME-INJECTIVE: the SMT-LIB text parses only then); R-REPORT-READONLY for the Excel exporter. The tracked (debug) configuration of the export is decided apart (R-SMT-TRACKED: one recorded finding - the labels of assert_and_track are left free in the exported text). A coloured Excel cell gets `#` + exactly six digits for every text (R-EXCEL-COLOR).",
     "C17": " Also: the task-view bar is (start, duration) and duration == end - start by the way build_solution extracts them "
            "(R-EXTRACT). The renderers' `if not solution` rejection is a presence test: no class the argument can hold defines __bool__ or __len__ (R-PRESENCE-TEST). Every free name read in a function of plotter.py / solution.py is bound at module level or builtin (R-NAMES-RESOLVE, from the compiler's symbol tables). R-REPORT-READONLY; the reported horizon the renderers count periods with is an asserted integer (R-HORIZON). With a buffer sub-plot the calendar ticks are set on the Gantt axes object, not through the pyplot state machine (R-GANTT-TICKS).",
     "C18": " Also: no rejection test reads the busy dict of a possibly cumulative resource itself (R-UNION-EXH on rejection tests). No constructor raises after registering the element (R-REGISTER-ATOMIC: twelve recorded findings); a constructor that sorts two lists is not refused for a single element (R-SINGLE-SORT).",
